@@ -125,6 +125,67 @@ def h_roundtrip(model: str, n: int, aln: bool, via_text: bool, small: bool,
         raise Violation(f'{type(exc).__name__}: {exc}', node)
 
 
+def deep_tree(sym, depth, ntrail, roles, model_roles_inv=None):
+    """A chain a -> b -> c [-> d] of nested nodes, closed back to a
+    solver-chosen ancestor (several closes on one triple), followed by
+    *ntrail* atomic branches on that ancestor whose targets are any of the
+    variables or a constant."""
+    from vflib.engine import bound_int
+    names = progs.VARS[:depth + 1]
+    nodes = [(v, [('/', 'x' + v)]) for v in names]
+    for i in range(depth):
+        r = sym[f'chain{i}_r']
+        bound_int(r, 0, len(roles))
+        nodes[i][1].append((progs.pick(r, roles), nodes[i + 1]))
+    lvl = sym['level']
+    bound_int(lvl, 0, depth)          # ancestor that gets the trailing part
+    host = progs.pick(lvl, nodes[:depth])
+    targets = names + ['k']
+    for j in range(ntrail):
+        r, t = sym[f'trail{j}_r'], sym[f'trail{j}_t']
+        bound_int(r, 0, len(roles))
+        bound_int(t, 0, len(targets))
+        host[1].append((progs.pick(r, roles), progs.pick(t, targets)))
+    return nodes[0]
+
+
+def deep_params(depth, ntrail):
+    d = {'level': int}
+    for i in range(depth):
+        d[f'chain{i}_r'] = int
+    for j in range(ntrail):
+        d[f'trail{j}_r'] = int
+        d[f'trail{j}_t'] = int
+    return d
+
+
+def h_multiclose(model: str, depth: int, ntrail: int, **sym):
+    """Deep nesting with several closes at once and re-entrancies to the
+    intermediate nodes (shapes the small tree programs do not reach)."""
+    import penman
+    from penman import layout
+    from penman.tree import Tree
+    real, ref = models.get(model)
+    node = deep_tree(sym, depth, ntrail, models.ROLES[model][:3])
+    assume(well_formed(node, ref))
+    t = Tree(progs.copy_tree(node))
+    try:
+        g = layout.interpret(t, real)
+        t2 = layout.configure(g, model=real)
+        s = penman.format(Tree(progs.copy_tree(node)))
+        out = penman.encode(penman.decode(s, model=real), model=real)
+    except Exception as exc:
+        raise Violation(f'{type(exc).__name__}: {exc}', node)
+    mark('deep')
+    require(t2.node == node, 'configure(interpret(t)) != t', node, t2.node,
+            g.triples)
+    require(out == s, 'encode(decode(s)) != s', s, out)
+
+
+h_multiclose.params_for = lambda fixed: {
+    k: v for k, v in deep_params(fixed['depth'], fixed['ntrail']).items()
+    if k not in fixed}
+
 h_roundtrip.params_for = lambda fixed: {
     k: v for k, v in progs.tree_params(fixed['n']).items() if k not in fixed}
 
@@ -145,8 +206,22 @@ def obligations(tier: str) -> List[dict]:
                     'fn': 'h_roundtrip', 'fixed': fixed, 'timeout': timeout,
                     'bound': f'<= {n} branches', 'need_marks': marks or []})
 
+    def deep(model, depth, ntrail, timeout, **fx):
+        obs.append({'name': f'E2 multiclose model={model} depth={depth} '
+                            f'trailing={ntrail} {fx}', 'kind': 'e2',
+                    'fn': 'h_multiclose',
+                    'fixed': {'model': model, 'depth': depth,
+                              'ntrail': ntrail, **fx}, 'timeout': timeout,
+                    'bound': f'chain of {depth + 1} nodes + {ntrail} '
+                             'trailing branches', 'need_marks': ['deep']})
+
     OPS2 = [(0, 0), (0, 1), (1, 0), (1, 1), (1, 2)]
     if tier == 'quick':
+        for m in ('default', 'amr'):
+            deep(m, 2, 1, 300)
+            deep(m, 3, 1, 400)
+        for lvl in (0, 1):
+            deep('default', 2, 2, 400, level=lvl)
         for m in ('default', 'amr', 'noop', 'custom'):
             for op in (0, 1):
                 add(m, 2, False, False, 300, ops=(op,),
@@ -159,6 +234,9 @@ def obligations(tier: str) -> List[dict]:
             add('amr', 3, False, True, 400, small=True, ops=ops)
     else:
         for m in ('default', 'amr', 'noop', 'custom'):
+            for lvl in (0, 1, 2):
+                deep(m, 3, 2, 3000, level=lvl)
+                deep(m, 4, 1, 3000, level=lvl)
             for ops in OPS2:
                 add(m, 3, False, False, 3000, small=False, ops=ops)
                 add(m, 3, False, True, 1500, small=True, ops=ops)
